@@ -5,7 +5,9 @@ CONSTANT DropKind = "none"
 CONSTANT DropIdx = 0
 CONSTANT Cases <- CasesDeg
 CONSTANT Sel = {}
+CONSTANT DegShift = 0
 INIT InitDeg
 NEXT NextDeg
 INVARIANT DegreeInv
+INVARIANT DegreeExactInv
 CHECK_DEADLOCK FALSE
